@@ -257,6 +257,18 @@ def run_nan_samples(ctx: Ctx):
             nans = [v != v for v in vals]
             if any(nans) and not all(nans):
                 ctx.violate('C06:stale-output-of-nan-sample', f'sample {s}: loop outputs {dict(zip(names, vals))} mix NaN and stale finite values', {**case, 'sample': s})
+            if s == bad:
+                # the sample that turns NaN, evaluated alone: the sweep in which it turns NaN is then also the last sweep of the batch
+                try:
+                    yb = system.predict({'xx': xs[s:s + 1]}, use_model='best')
+                    vb = [float(np.ravel(yb[k])[0]) for k in names]
+                    if any(v != v for v in vb) and not all(v != v for v in vb):
+                        ctx.violate('C06:stale-output-of-nan-sample', f'sample {s} evaluated alone: loop outputs {dict(zip(names, vb))} mix NaN and stale '
+                                    f'finite values', {**case, 'sample': s, 'alone': True})
+                    if [v != v for v in vb] != nans:
+                        ctx.violate('C06:batch-dependence', f'sample {s}: NaN pattern {nans} in the batch, {[v != v for v in vb]} alone', {**case, 'sample': s})
+                except Exception as e:
+                    ctx.violate('C06:one-bad-sample-aborts-the-batch', f'System.predict of the single sample {s} raised {type(e).__name__}: {e}', case)
             if s != bad:
                 try:
                     ys = system.predict({'xx': xs[s:s + 1]}, use_model='best')
